@@ -259,8 +259,23 @@ func (c *clusterClient) DownloadBlob(ctx context.Context, namespace string, d co
 
 	log.WithTraceContext(ctx).With("namespace", namespace, "digest", d.Hex()).Debug("Starting blob download from origin cluster")
 
+	w := &countingWriter{w: dst}
 	err := Poll(c.resolver, c.defaultPollBackOff(), d, func(client Client) error {
-		return client.DownloadBlob(ctx, namespace, d, dst)
+		if w.n > 0 {
+			// A previous request failed after part of the blob was already
+			// written to dst. Writing the blob again behind it would corrupt
+			// dst, so seek back over the partial data, or give up if dst
+			// cannot seek.
+			s, ok := dst.(io.Seeker)
+			if !ok {
+				return fmt.Errorf("cannot retry: %d bytes already written to unseekable destination", w.n)
+			}
+			if _, err := s.Seek(-w.n, io.SeekCurrent); err != nil {
+				return fmt.Errorf("rewind destination: %s", err)
+			}
+			w.n = 0
+		}
+		return client.DownloadBlob(ctx, namespace, d, w)
 	})
 	if httputil.IsNotFound(err) {
 		span.SetStatus(codes.Error, "blob not found")
@@ -274,6 +289,18 @@ func (c *clusterClient) DownloadBlob(ctx context.Context, namespace string, d co
 		log.WithTraceContext(ctx).With("namespace", namespace, "digest", d.Hex()).Debug("Blob download succeeded")
 	}
 	return err
+}
+
+// countingWriter counts the bytes written to w.
+type countingWriter struct {
+	w io.Writer
+	n int64
+}
+
+func (c *countingWriter) Write(p []byte) (int, error) {
+	n, err := c.w.Write(p)
+	c.n += int64(n)
+	return n, err
 }
 
 // PrefetchBlob preheats a blob in the origin cluster for downloading.
